@@ -8,6 +8,7 @@ package main
 import (
 	"fmt"
 	"math"
+	"strconv"
 	"strings"
 	"sync"
 
@@ -19,12 +20,33 @@ type MappingSpec struct {
 	Alpha float64 `json:"alpha"`
 }
 
+// A Kind of the form "linear#-7.5" denotes the kind's from-accuracy gamma with the explicit index offset -7.5.
 // A Kind of the form "cubic@log" denotes the cubic mapping built with ...WithGamma(gamma, offset) where gamma and offset
 // are those of the LOGARITHMIC mapping built from Alpha: another kind with bit-identical parameters.
 
 func (ms MappingSpec) build() mapping.IndexMapping {
 	var m mapping.IndexMapping
 	var err error
+	if i := strings.Index(ms.Kind, "#"); i > 0 {
+		// "linear#-7.5": the kind's from-accuracy gamma with the explicit index offset -7.5
+		off, perr := strconv.ParseFloat(ms.Kind[i+1:], 64)
+		if perr != nil {
+			panic("bad mapping spec " + ms.Kind)
+		}
+		g := MappingSpec{Kind: ms.Kind[:i], Alpha: ms.Alpha}.build().ToProto().Gamma
+		switch ms.Kind[:i] {
+		case "log":
+			m, err = mapping.NewLogarithmicMappingWithGamma(g, off)
+		case "linear":
+			m, err = mapping.NewLinearlyInterpolatedMappingWithGamma(g, off)
+		default:
+			m, err = mapping.NewCubicallyInterpolatedMappingWithGamma(g, off)
+		}
+		if err != nil {
+			panic(fmt.Sprintf("mapping %v: %v", ms, err))
+		}
+		return m
+	}
 	if i := strings.Index(ms.Kind, "@"); i > 0 {
 		p := MappingSpec{Kind: ms.Kind[i+1:], Alpha: ms.Alpha}.build().ToProto()
 		switch ms.Kind[:i] {
